@@ -5,7 +5,7 @@ import re
 import warnings
 
 
-def _mk_chunk(n_sets, which, msa, flag):
+def _mk_chunk(n_sets, which, msa, flag, buf=None):
     import numpy as np
     import pandas as pd
     from ampycloud.data import CeiloChunk
@@ -17,6 +17,8 @@ def _mk_chunk(n_sets, which, msa, flag):
     with warnings.catch_warnings():
         warnings.simplefilter('ignore')
         chunk = CeiloChunk(data, prms={'MSA': msa})
+    if buf is not None:
+        chunk.prms['MSA_HIT_BUFFER'] = float(buf)       # (set after construction: the cropping of the dummy hits is not what is replayed)
     chunk._clouds_above_msa_buffer = bool(flag)
     chunk.data[which[:-1] + '_id'] = list(range(n_sets)) if n_sets else [-1]
     return chunk
@@ -25,7 +27,7 @@ def _mk_chunk(n_sets, which, msa, flag):
 MSG = re.compile(r'^(FEW|SCT|BKN|OVC)\d{3}( (FEW|SCT|BKN|OVC)\d{3}){0,2}$')
 
 
-def metar_msg_oracle(T=None, msa=None, flag=False, which='layers', **_):
+def metar_msg_oracle(T=None, msa=None, flag=False, which='layers', msa_hit_buffer=None, **_):
     """run the real metar_msg on a real chunk carrying the table T (list of row dicts) and compare with the message
     the property text prescribes for a table satisfying the table invariant."""
     import pandas as pd
@@ -39,7 +41,7 @@ def metar_msg_oracle(T=None, msa=None, flag=False, which='layers', **_):
             return ('raise', type(e).__name__), ([] if ok else [f'exc.unexpected.{type(e).__name__}'])
     msa = None if msa is None else float(msa)
     n = len(T)
-    chunk = _mk_chunk(n, which, msa, flag)
+    chunk = _mk_chunk(n, which, msa, flag, msa_hit_buffer)
     tab = pd.DataFrame({'okta': [int(r['okta']) for r in T], 'height_base': [float(r['height_base']) for r in T],
                         'code': [str(r['code']) for r in T], 'significant': [bool(r['significant']) for r in T]},
                        columns=['okta', 'height_base', 'code', 'significant'])
@@ -136,3 +138,57 @@ def cleanup_oracle(rows=None, MSA=None, MSA_HIT_BUFFER=1500, MAX_HITS_OKTA0=3, *
     if bool(chunk.clouds_above_msa_buffer) != want_flag:
         failed.append('post.flag')
     return ('return', {'rows_out': got[:8], 'flag': bool(chunk.clouds_above_msa_buffer)}), failed
+
+
+def ncomp_suffix_oracle(vals_orig=None, best_ids_raw=None, min_sep=0, layer_base_params=None, ncomp_max=3, **_):
+    """replay of the block contract of ncomp_from_gmm: the *real statements* of the function from `base_comp_heights = [...]` to its
+    end are compiled from the source under verification and run by CPython in the namespace of the real module, on the mid-state
+    the counter-model describes; the clauses of C06 / C05 are then evaluated on what they return"""
+    import ast
+    import importlib
+    import itertools
+    import warnings
+    import numpy as np
+    from pyvc import source
+    layer = importlib.import_module('ampycloud.layer')
+    utils = importlib.import_module('ampycloud.utils.utils')
+    ids = [int(v) for v in (best_ids_raw or [])]
+    hs = [float(v) for v in (vals_orig or [])][:len(ids)]
+    ids = ids[:len(hs)]
+    K = (max(ids) + 1) if ids else 0
+    if K < 2 or K > int(ncomp_max) or set(ids) != set(range(K)) or not layer_base_params:
+        return ('precondition-false',), []
+    tree = ast.parse(open(layer.__file__).read())
+    fn = next(n for n in tree.body if isinstance(n, ast.FunctionDef) and n.name == 'ncomp_from_gmm')
+    k = next((j for j, st in enumerate(fn.body) if isinstance(st, ast.Assign) and any(
+        isinstance(t, ast.Name) and t.id == 'base_comp_heights' for t in st.targets)), None)
+    if k is None:
+        return ('precondition-false',), []
+    names = ['vals_orig', 'best_ids', 'ncomp', 'best_model_ind', 'best_ncomp', 'abics', 'min_sep', 'layer_base_params']
+    suffix = ast.FunctionDef(name='__suffix__', args=ast.arguments(posonlyargs=[], args=[ast.arg(arg=a) for a in names], kwonlyargs=[],
+                                                                  kw_defaults=[], defaults=[]), body=fn.body[k:], decorator_list=[], type_params=[])
+    mod = ast.Module(body=[suffix], type_ignores=[])
+    ast.fix_missing_locations(mod)
+    ns = dict(vars(layer))
+    exec(compile(mod, layer.__file__, 'exec'), ns)
+    vo = np.array(hs, dtype=float).reshape(-1, 1)
+    lbp = {kk: int(v) for kk, v in layer_base_params.items()}
+    failed = []
+    try:
+        with warnings.catch_warnings():
+            warnings.simplefilter('ignore')
+            n_out, ids_out, _ = ns['__suffix__'](vo.copy(), np.array(ids), np.arange(1, int(ncomp_max) + 1), K - 1, K,
+                                                 np.zeros(int(ncomp_max)), float(min_sep), dict(lbp))
+    except AssertionError as e:
+        return ('raise', 'AssertionError', str(e)[:100]), ['assert.line_in_body']
+    except Exception as e:  # noqa
+        return ('raise', type(e).__name__, str(e)[:100]), ['exc.unexpected']
+    bases = [float(utils.calc_base_height(vo[np.array(ids) == c].flatten(), lbp['lookback_perc'], lbp['height_perc'])) for c in range(K)]
+    if int(n_out) == K and any(abs(a - b) < float(min_sep) for a, b in itertools.combinations(bases, 2)):
+        failed.append('post.C06.no_remerge_implies_separated')
+    ids_out = np.asarray(ids_out).ravel()
+    if len(ids_out) != len(ids) or not all(0 <= int(v) < K for v in ids_out):
+        failed.append('post.C05.one_label_in_0_to_K_minus_1_per_value')
+    if int(n_out) != len(set(int(v) for v in ids_out)):
+        failed.append('post.C05.number_returned_is_number_of_distinct_labels')
+    return ('return', {'ncomp': int(n_out), 'ids': [int(v) for v in ids_out], 'bases': bases}), failed
